@@ -52,6 +52,28 @@ INVALID = ["yes", "no", "2", "", " 1", "on", "off", "None", "t", 1, 0, None, 2.0
 REJECT = ("TypeCheckError", "TypeError", "BeartypeCallHintParamViolation", "BeartypeCallHintReturnViolation")
 
 
+_DIR = None
+
+
+def worker_init():
+    """Temp dir with two tiny annotated modules that the histories load through the import hook."""
+    global _DIR
+    import atexit
+    import importlib
+    import shutil
+    import tempfile
+
+    ctxsim.warm_up()
+    sys.dont_write_bytecode = True
+    _DIR = tempfile.mkdtemp(prefix="jtv_c19_")
+    atexit.register(shutil.rmtree, _DIR, True)
+    for name in ("c19mod_a", "c19mod_b"):
+        with open(os.path.join(_DIR, name + ".py"), "w") as f:
+            f.write("import numpy as np\nfrom jaxtyping import Float\n\ndef f(x: Float[np.ndarray, '3']):\n    return 1\n")
+    sys.path.insert(0, _DIR)
+    importlib.invalidate_caches()
+
+
 def _norm(out):
     if isinstance(out, dict) and "exc" in out:
         stage = None
@@ -137,7 +159,14 @@ def gen(seed, tier="quick"):
             i = r.choice(pairs)
             if fns[f"D{i}"]["style"] in ("new", "none") and fns[f"D{i}"]["kind"] == "fn":
                 prog.append({"op": "mark_ntc", "fn": f"D{i}"})
-        elif x < 0.57 and not concurrent:
+        elif x < 0.53 and not concurrent:
+            mname = r.choice(("c19mod_a", "c19mod_b"))
+            prog.append({"op": "hookmod", "module": mname, "checker": r.choice(("typeguard.typechecked", "beartype.beartype"))})
+            for _ in range(r.randrange(1, 3)):
+                if r.random() < 0.5:
+                    prog.append({"op": "toggle", "item": "jaxtyping_disable", "value": r.choice((True, False, "1", "0"))})
+                prog.append({"op": "hookcall", "module": mname, "bad": r.random() < 0.6})
+        elif x < 0.6 and not concurrent:
             i = r.choice(pairs)
             flip = r.choice((True, False))
             prog.extend(call_pair(i, twin=False, flip=flip))
@@ -207,6 +236,19 @@ class Observer:
                 self._v("switch-model", {"path": path, "what": "jaxtyping_disable differs from the model after this update", "model": self.switch,
                                          "live": live, "update": [op["item"], repr(op["value"])]}, what="value")
                 self.switch = live
+            return
+        if k == "hookcall":
+            if out == "nomodule":
+                return
+            self.stats.inc("evaluations")
+            self.stats.inc("hookcall:" + ("disabled" if self.switch else "enabled"))
+            self.feats.add(f"hookcall|{self.switch}|{op.get('bad')}|{out.get('exc') if isinstance(out, dict) else out}")
+            want_raise = bool(op.get("bad")) and not self.switch
+            raised = isinstance(out, dict) and "exc" in out
+            if want_raise != raised or (raised and out.get("exc") != "TypeCheckError"):
+                self._v("hooked-module-follows-switch", {"what": "a function of a module loaded through the import hook does not follow "
+                                                                 "the switch at call time", "disabled_now": self.switch, "ill_typed": op.get("bad"),
+                                                         "got": _norm(out)}, disabled=self.switch, bad=bool(op.get("bad")))
             return
         if k == "mark_ntc":
             if out == "marked":
